@@ -20,7 +20,7 @@ ASSUMPTIONS = [
     "positions whose reference mu_j is outside (0,u] are not judged (the statement restricts itself to them)",
 ]
 FAMS = ["alpha-fixed", "alpha-shrink", "alpha-optcomp", "bet-fixed", "bet-agrapa",
-        "alpha-fixed-inf", "alpha-shrink-inf", "bet-fixed-inf", "bet-agrapa-inf"]
+        "alpha-fixed-inf", "alpha-shrink-inf", "bet-fixed-inf", "bet-agrapa-inf", "alpha-optcomp-inf"]
 
 
 def shards(tier):
